@@ -15,10 +15,11 @@ LEVEL = 'exploration'
 RULE = ('each case = 40-400 steps: stream maxima set via update_settings(INITIAL_WINDOW_SIZE)+ACK from {0,1,2,3,4,5,7,8,1023,'
         '1024,1025,4095,4096,4097,65535,2^20,2^31-1} and changed mid-history; peer DATA (with padding) always within the '
         'shadow windows incl. to exhaustion; acknowledgements in random splits and delays; resets/END_STREAM so later DATA '
-        'lands on closed streams; a quiescent point (everything acknowledged) forced every 5-30 steps; non-trivial = at '
+        'lands on closed streams (padded too; one case in ten floods a reset stream with up to 900 heavily padded frames); a quiescent point (everything acknowledged) forced every 5-30 steps; non-trivial = at '
         'least one quiescent point evaluated after a window was exhausted or a maximum changed; distinct = hash of step list')
 MINIMA = {'quiescent_points': 3000, 'quiescent_stream_checks': 3000, 'credit_checks': 20000, 'exhausted_windows': 500,
-          'maximum_changes': 300, 'quiescent_after_max_lowered': 100}
+          'maximum_changes': 300, 'quiescent_after_max_lowered': 100,
+          'padded_data_on_closed_stream': 5000, 'closed_stream_pad_floods_beyond_one_window': 100}
 MAXW = 2 ** 31 - 1
 MAXIMA = [0, 1, 2, 3, 4, 5, 7, 8, 1023, 1024, 1025, 4095, 4096, 4097, 65535, 2 ** 20, MAXW]
 
@@ -149,6 +150,7 @@ def run_case(idx, rng, tier, rep):
                 return
 
     late = {}
+    flood_bytes = [0]
     ack_since_lowered = {}      # sid -> acknowledge_received_data called for it since its maximum was last lowered
     if rng.random() < 0.7:
         set_max(rng.choice(MAXIMA))
@@ -157,12 +159,38 @@ def run_case(idx, rng, tier, rep):
         if d.alive:
             d.open_stream()
     nsteps = rng.choice([40, 150, 400])
+    # one case in ten: a flood of small, heavily padded DATA frames on a stream that was reset (the library acknowledges those
+    # itself): every octet of them, padding included, has to come back or the connection window drains for good
+    flood = rng.random() < 0.1
+    if flood:
+        nsteps = 900
+        rep.count('closed_stream_pad_flood_cases')
     next_q = rng.randrange(5, 31)
     for step in range(nsteps):
         if not d.alive:
             break
         r = rng.random()
-        if r < 0.05 and len(sh.stream) < 10:
+        if flood and d.closed and r < 0.93:
+            sid = rng.choice(d.closed)
+            pad = rng.choice([255, 255, 200, 100, 17])
+            tot = pad + 1 + rng.choice([0, 1, 1, 20])
+            if sh.conn < tot:
+                # the peer is out of connection window: everything was acknowledged (by the library), so this is a stall
+                quiesce()
+                continue
+            if d.deliver_data(sid, tot - pad - 1, pad, closed_stream=True):
+                acked[0] += tot
+                rep.count('padded_data_on_closed_stream')
+                flood_bytes[0] += tot
+        elif flood and not d.closed and d.accepts and r < 0.5:
+            sid = rng.choice(d.accepts)
+            res = t.call('reset_stream', sid)
+            d.steps.append(('reset', sid))
+            if res.ok:
+                d.accepts.remove(sid)
+                late[sid] = d.unacked.pop(sid, 0)
+                d.closed.append(sid)
+        elif r < 0.05 and len(sh.stream) < 10:
             d.open_stream()
         elif r < 0.08:
             d.activate_reserved()
@@ -192,10 +220,15 @@ def run_case(idx, rng, tier, rep):
             if w <= 0:
                 continue
             tot = min(rng.choice([w, 1, 100, 5000]), w, 16384)
-            before = sh.conn
-            ok = d.deliver_data(sid, tot, None, closed_stream=True)
+            pad = rng.choice([None, None, 0, 9, 255])
+            over = 0 if pad is None else pad + 1
+            if tot < over:
+                pad, over = None, 0
+            ok = d.deliver_data(sid, tot - over, pad, closed_stream=True)
             if ok:
-                acked[0] += tot        # the library acknowledges DATA on closed streams itself
+                acked[0] += tot        # the library acknowledges DATA on closed streams itself, padding included
+                if pad is not None:
+                    rep.count('padded_data_on_closed_stream')
         elif r < 0.80 and any(d.unacked.values()):
             sid = rng.choice([s for s, n in d.unacked.items() if n])
             n = d.unacked[sid]
@@ -225,6 +258,8 @@ def run_case(idx, rng, tier, rep):
             next_q = rng.randrange(5, 31)
     if d.alive:
         quiesce()
+    if flood_bytes[0] > 70000:
+        rep.count('closed_stream_pad_floods_beyond_one_window')
     if interesting[0] and rep.counters.get('quiescent_points'):
         rep.nontrivial((e_client, tuple(str(s) for s in d.steps)))
     if idx % 397 == 0:
